@@ -1,9 +1,9 @@
 package harness
 
 import (
-	"math/big"
 	"errors"
 	"fmt"
+	"math/big"
 	"sort"
 	"strings"
 
@@ -604,7 +604,6 @@ func genValidAtomCfg(t *rapid.T) Cfg {
 	c.Status = pick(t, "status", []int{0, 200, 204, 299, 250})
 	return c
 }
-
 
 // wrapInts lists out-of-range integers that land on the in-range value v (or
 // next to it) after a narrowing conversion or after a multiplication by a
